@@ -400,7 +400,7 @@ func runC15(c *vk.Ctx) {
 		c.Violate("harness-not-race-build", "C15 must run in the race-detector build (./run.sh C15 ...)", nil)
 		return
 	}
-	n := c.Pick(20, 500)
+	n := c.Pick(20, 300)
 	logDir := c.TempDir("racelogs-")
 	var cases []interface{}
 	for i := 0; i < n; i++ {
